@@ -13,7 +13,8 @@
      true  = with fixes/C16-1-no-thread-no-lock.patch   (pause/resume/post when no logging thread exists),
                   fixes/C16-2-stop-resets-state.patch   (qb_log_thread_stop leaves the statics as at program start),
                   fixes/C16-3-exit-when-queue-empty.patch (worker exit test),
-                  fixes/C16-4-close-pauses-worker.patch (qb_log_custom_close runs under pause/resume).  *)
+                  fixes/C16-4-close-pauses-worker.patch (qb_log_custom_close runs under pause/resume),
+                  fixes/C16-5-in-logger-thread-local.patch (the in_logger guard of log.c is per thread).  *)
 From Coq Require Import ZArith List Bool.
 Import ListNotations.
 Require Import Verif.gen.Consts_logthr.
@@ -346,8 +347,20 @@ Definition at_ppc (p : prod) (c : ppc) : prod := {| p_prog := p_prog p; p_seq :=
 Definition prod_done (p : prod) : bool :=
   match p_pc p, p_prog p with PIdle, [] => true | _, _ => false end.
 
+(* the decision core of qb_log_thread_log_post as one function (what prod_step's PLock step computes; tied to the
+   translated C source in LogThrSrcEq.v): new logt_memory_used, new logt_dropped_messages, record accepted? *)
+Definition post_decide (mem_used dropped len : Z) : Z * Z * bool :=
+  let total := LOGT_REC_SIZE + len + 1 in
+  if LOGT_LIMIT <? mem_used + total then (mem_used, dropped + 1, false) else (mem_used + total, dropped, true).
+
+(* qb_log_thread_pause / _resume of the repaired code take the lock exactly when ... *)
+Definition pause_takes_lock (t : tgt) (l : lockst) : bool := t_thr t && negb (lock_is_null l).
+
 (* ---- producer i: qb_log_real_va_ -> qb_log_thread_log_post ---- *)
-Definition prod_step (i : nat) (sh : shared) (gh : ghost) (p : prod) : option (shared * ghost * prod * clabel) :=
+(* `inlog' is the process-wide in_logger of the code as found.  With fix 5 the flag is thread-local: a thread that
+   begins a log call always finds its own flag clear, so the guard never turns a producer away (the field is then
+   still written as before but read by nobody). *)
+Definition prod_step (fixed : bool) (i : nat) (sh : shared) (gh : ghost) (p : prod) : option (shared * ghost * prod * clabel) :=
   match p_pc p with
   | PIdle =>
       match p_prog p with
@@ -355,7 +368,7 @@ Definition prod_step (i : nat) (sh : shared) (gh : ghost) (p : prod) : option (s
       | len :: rest =>
           let m := {| m_tid := i; m_seq := p_seq p; m_len := len |} in
           let p' c := {| p_prog := rest; p_seq := S (p_seq p); p_pc := c |} in
-          if inlog sh then Some (sh, add_guarded gh m, p' PIdle, LbLog)          (* compare-and-exchange failed: return *)
+          if negb fixed && inlog sh then Some (sh, add_guarded gh m, p' PIdle, LbLog)   (* compare-and-exchange failed: return *)
           else if en sh then Some (set_inlog sh true, gh, p' (PLock m), LbLog)
           else Some (sh, add_skipped gh m, p' PIdle, LbLog)                       (* no enabled target: in_logger set and cleared *)
       end
@@ -498,7 +511,7 @@ Definition cstep (fixed : bool) (s : cstate) (tid : nat) : option (cstate * clab
       match nth_error (c_prods s) i with
       | None => None
       | Some p =>
-          match prod_step i (c_sh s) (c_gh s) p with
+          match prod_step fixed i (c_sh s) (c_gh s) p with
           | Some (sh, gh, p', l) =>
               Some ({| c_sh := sh; c_gh := gh; c_w := c_w s; c_mprog := c_mprog s; c_m := c_m s;
                        c_prods := upd_prod (c_prods s) i p' |}, l)
